@@ -119,6 +119,22 @@ def joining_script(t, scen, rep, same_identity=False):
         ops += [{"op": "quiescent"}]
     return {"scen": scen, "sock": t, "ops": ops, "tag": "joining/%d" % rep, "nojitter": True}
 
+def restart_script(t, scen, rep):
+    """a subscriber restarts: it closes its connection and is back under its identity at once (the old connection's end and the new
+    registration reach the socket together); the new connection must stay and be served"""
+    sub = [hx(b"\x01")]
+    ops = [{"op": "attach", "c": 1, "ptype": "SUB", "ident": hx("subscriber")}, {"op": "psend", "c": 1, "m": sub}]
+    if t == "XPUB":
+        ops += [{"op": "recv"}, {"op": "recv_drop"}]
+    ops += [{"op": "settle"}, {"op": "pclose", "c": 1}, {"op": "attach", "c": 2, "ptype": "SUB", "ident": hx("subscriber")}, {"op": "psend", "c": 2, "m": sub}]
+    if t == "XPUB":
+        ops += [{"op": "recv"}, {"op": "recv"}, {"op": "quiescent"}, {"op": "recv_drop"}]
+    ops += [{"op": "settle"}]
+    for i in range(3):
+        ops.append({"op": "send", "m": [hx("out%d.%d" % (scen, i))], "note": {"first": list(b"out")}})
+    ops += [{"op": "settle"}, {"op": "expect_wire", "c": 2, "m": [hx("out%d.2" % scen)]}, {"op": "quiescent"}]
+    return {"scen": scen, "sock": t, "ops": ops, "tag": "restart-same-identity/%d" % rep, "nojitter": True}
+
 def run(chk, replay=None):
     chk.rule = ("cases = grid {9 socket types} x {cut position in the victim's byte stream: between messages, inside a frame header, inside an 8-byte length, inside a body, between "
                 "frames of a multipart message} x {orderly EOF, connection reset (reads and writes fail), EOF followed by write failure} x {1, 2 other live peers} x {the fault is first met by a recv, by a send}, each followed by recv / send calls and "
@@ -173,6 +189,10 @@ def run(chk, replay=None):
                     js = joining_script(t, scen, rep, same_identity=True)
                     if js:
                         fam.append(js)
+    if not replay:
+        for t in ("PUB", "XPUB"):
+            for rep in range(24 if thorough else 8):      # which branch the old reader task's select! takes is random
+                scen += 1; fam.append(restart_script(t, scen, rep))
     for s in fam: chk.case((s["sock"], s["tag"], s["scen"]))
     chk.sample({"kind": "fault scenario", "sock": fam[len(fam) // 2]["sock"], "cell": fam[len(fam) // 2]["tag"], "ops": [(o["op"], o.get("c")) for o in fam[len(fam) // 2]["ops"]]})
     v = dlvlib.run_scripts(chk, fam, "c16", monitor="TraceLifecycle")
